@@ -118,3 +118,10 @@ func Yield(site string) {}
 
 // Symbolic reports whether the code runs under the symbolic engine.
 func Symbolic() bool { return false }
+
+// StorageCrashAfter: under the engine, every leveldb model opened afterwards drops its n-th
+// (0-based) and all later mutating calls. Natively a no-op (crash points are not replayed natively).
+func StorageCrashAfter(n int) {}
+
+// StorageWrites returns the number of mutating storage calls made so far (engine only).
+func StorageWrites() int { return 0 }
